@@ -10,6 +10,10 @@ fn main() {
     if args.iter().any(|a| a == "--child") {
         child::child_main(&fams);
     }
+    if args.first().map(|a| a == "--trace").unwrap_or(false) {
+        trace(&fams, &args[1..]);
+        return;
+    }
     let mut ctx = vcommon::Ctx::new("C10", &args);
     ctx.rule(
         "Per decoder family (sub-checks frag:<family> and mut:<family>): streams of 1-8 generated messages encoded \
@@ -37,6 +41,10 @@ fn main() {
         let tiny = fam.name == "store-initialized";
         let frag_cases = if tiny { ctx.pick(200, 2_000) } else { ctx.pick(1_600, 64_000) };
         let mut_cases = if tiny { ctx.pick(400, 4_000) } else { ctx.pick(6_000, 240_000) };
+        // Development aid only (never set by ./check): scale the budgets.
+        let scale: f64 = std::env::var("C10_SCALE").ok().and_then(|s| s.parse().ok()).unwrap_or(1.0);
+        let frag_cases = ((frag_cases as f64 * scale) as u64).max(16);
+        let mut_cases = ((mut_cases as f64 * scale) as u64).max(16);
         ctx.prop(
             &format!("frag:{}", fam.name),
             frag_cases,
@@ -51,4 +59,48 @@ fn main() {
         );
     }
     ctx.finish();
+}
+
+/// `c10 --trace <family> <hex bytes> [chunk sizes, comma separated]`: feed a byte stream to the
+/// family's decoder and print every call (reproduction aid for the findings in NOTES.md).
+fn trace(fams: &[fams::Fam], args: &[String]) {
+    use bytes::BytesMut;
+    let bare_recognizer = fams::bare_recognizer_family();
+    let fam = if args[0] == "recognizer" { &bare_recognizer } else { fams.iter().find(|f| f.name == args[0]).expect("unknown family") };
+    let hex: String = args[1].chars().filter(|c| c.is_ascii_hexdigit()).collect();
+    let stream: Vec<u8> = (0..hex.len() / 2).map(|i| u8::from_str_radix(&hex[2 * i..2 * i + 2], 16).unwrap()).collect();
+    let chunks: Vec<usize> = args.get(2).map(|s| s.split(',').filter_map(|x| x.parse().ok()).collect()).unwrap_or_default();
+    let mut dec = (fam.dec)();
+    let mut buf = BytesMut::new();
+    let mut fed = 0;
+    let mut k = 0;
+    while fed < stream.len() {
+        let n = chunks.get(k).copied().unwrap_or(stream.len()).clamp(1, stream.len() - fed);
+        k += 1;
+        buf.extend_from_slice(&stream[fed..fed + n]);
+        fed += n;
+        println!("read {} bytes -> buffer {:?}", n, buf.as_ref());
+        loop {
+            let before = buf.len();
+            let r = dec.decode(&mut buf);
+            println!("  decode -> {:?}   (buffer {} -> {} bytes, consumed up to offset {})", r, before, buf.len(), fed - buf.len());
+            match r {
+                Ok(Some(_)) if buf.len() < before => continue,
+                Ok(Some(_)) => {
+                    println!("  (no progress)");
+                    return;
+                }
+                Ok(None) => break,
+                Err(_) => return,
+            }
+        }
+    }
+    loop {
+        let before = buf.len();
+        let r = dec.decode_eof(&mut buf);
+        println!("  decode_eof -> {:?}   (buffer {} -> {} bytes)", r, before, buf.len());
+        if !matches!(r, Ok(Some(_))) || buf.len() >= before {
+            break;
+        }
+    }
 }
